@@ -488,6 +488,45 @@ def run(seed, tier, budget_s):
                 plans.append(with_ranges(b, 0, [pr], nxt()))
                 cross_flow += 1
 
+    # ---- stage 3c: two in-range matches, a long one over several lines and a
+    #      shorter one that starts inside it (or at the same place)
+    nested_pairs = 0
+    for si in range(1 if quick else 3):
+        srng = core.run_rng(seed, PID, 'nested', si)
+        for mode in (['html', modes[(si + 2) % 5]] if quick else modes):
+            W = docgen.Words(srng)
+            frags = [docgen.f_plain(srng, W, {}) for _ in range(7)]
+            for fr in frags:
+                if not fr['s'].endswith('\n'):
+                    fr['s'] = fr['s'].rstrip(' ') + '\n'
+            for ctxv in (['0'] if quick else ['0', '2']):
+                b = {'kind': 'shell', 'mode': mode, 'ml': False, 'lang': 'en-GB',
+                     'names': ['nest.tex'], 'transport': 'run',
+                     'argv': ['--lt-command', 'simlt', '--language', 'en-GB',
+                              '--context', ctxv, '--output', mode, 'nest.tex'],
+                     'files': {'nest.tex': {'frags': frags}},
+                     'peer': {'targets': [], 'dup': [], 'nonascii': True},
+                     '_want_subs': True}
+                r = evaluate(b)
+                if r['verdict'] != 'ok' or not r.get('subs'):
+                    continue
+                text = r['subs'][0][0]
+                nl = [i for i, ch in enumerate(text) if ch == '\n']
+                pairs = []
+                for o1 in (0, nl[0] + 1 if nl else 0, 3):
+                    for k in range(1, len(nl)):
+                        l1 = nl[k] - o1 + srng.randrange(0, 3)
+                        for o2 in (o1, o1 + 2, nl[0] + 2 if nl else o1):
+                            if o1 <= o2 < o1 + l1:
+                                for l2 in (1, 4, 0):
+                                    pairs.append([[o1, l1], [o2, l2]])
+                                    pairs.append([[o2, l2], [o1, l1]])
+                if quick:
+                    pairs = srng.sample(pairs, min(len(pairs), 90))
+                for pr in pairs:
+                    plans.append(with_ranges(b, 0, pr, nxt()))
+                    nested_pairs += 1
+
     # ---- stage 3b: offsets around the end of each part, at every invocation
     #      of the multi-part bases (in range of the accumulated text, out of
     #      range of the part, and just beyond everything)
@@ -566,6 +605,7 @@ def run(seed, tier, budget_s):
              'range_sweep_cases': sweep_ranges,
              'part_boundary_offset_cases': boundary_cases,
              'cross_flow_range_cases': cross_flow,
+             'nested_multi_line_pairs': nested_pairs,
              'multi_fault_cases': n_multi if usable else 0}
     return core.finish(__import__('sim.scen_c15', fromlist=['x']), batch, rule,
                        assumptions, components, extra,
